@@ -119,13 +119,56 @@ UNSUPPORTED = {
 # paths of default_component_structure() that are structure, not options
 STRUCTURAL = {"stage", "variables", "executors.main"}
 
-# names used by the other families (constants of the spec; adversarial relations are the point)
+# names used by the shape families (constants of the spec; adversarial relations are the point)
 VAR_NAMES = ("v", "V")                       # differ only by case: legacy option names are case-sensitive
 VAR_SCOPES = ("global", "stage0", "stage1", "comp:prod", "comp:c")
 ENV_NAMES = ("env1", "MyEnv", "environment")  # mixed case (lower-cased by FlowIR); 'environment' is a legacy section name
-ENV_LOWER = {"env1": "env1", "MyEnv": "myenv", "environment": "environment"}
 ENV_VAR_NAMES = ("PATH", "Path")
 RESERVED_SECTION_NAMES = ("default", "meta", "sandbox")   # cannot name a component / an environment in the legacy format
+
+# ---------------------------------------------------------------------------------------------------------------
+# THE NAME ALPHABET (family "names" of spec/Dosini.tla).  The legacy format turns names into section headers
+# ([ENV-<NAME>], [<component>], [<output>], [STAGE<k>]) and option names (variables, environment variables); every
+# character class the format allows but the section / keyword syntax could mangle is represented, together with the
+# relations between names that matter: one name a prefix of another, a name that contains the section prefix, names
+# that differ only by case.  TLC enumerates every single name and every PAIR of names of a kind.
+NAME_ALPHABET = (
+    "gcc", "gcc-7",          # prefix of each other, hyphen + digit
+    "env", "env-2",          # the section prefix as a name, and a prefix of another name
+    "ENV",                   # the section prefix in its own case (same environment as 'env': never paired with it)
+    "env-env", "ENV-x",      # contains / starts with the section prefix
+    "py3.9",                 # dot, digits
+    "python_lsf",            # underscore
+    "7zip",                  # leading digit
+    "MyEnv",                 # mixed case
+)
+# ':' and '=' are option delimiters: legal inside a section header only (environment and output names)
+NAMES_SECTION_ONLY = ("a:b", "a=b")
+ENV_NAME_POOL = NAME_ALPHABET + NAMES_SECTION_ONLY + ("environment", "env1", "sandbox-2")     # reserved words as name / prefix
+COMP_NAME_POOL = NAME_ALPHABET + ("C", "metadata", "default-x", "stage0")                      # 'c' exists: case pair; reserved words as prefix
+VAR_NAME_POOL = NAME_ALPHABET + ("v", "V", "Queue", "WALLTIME", "job_type", "k8s-image2")     # keywords in another case / spelling
+ENV_VAR_NAME_POOL = ("PATH", "Path", "LD_LIBRARY_PATH", "my.var", "my-var", "X1", "9X", "DEFAULTS", "applications")
+OUT_NAME_POOL = NAME_ALPHABET + NAMES_SECTION_ONLY + ("Out", "out", "stage0", "Meta-x")
+MANY_STAGES = 11                                 # stage indices >= 10 (STAGE10, stage10.instance.conf)
+
+
+def env_lower(name):
+    return name.lower()
+
+
+def env_section(name):
+    """the section header the legacy format uses for an environment"""
+    return "ENV-" + name.upper()
+
+
+def env_name_cut_at_hyphen(section):
+    """named fault 'env-name-cut-at-hyphen': the name recovered with split('-')[1] instead of [4:]"""
+    return section.split("-")[1].lower()
+
+
+def all_env_names():
+    names = list(ENV_NAMES) + [n for n in ENV_NAME_POOL if n not in ENV_NAMES]
+    return names + sorted({n.lower() for n in names} - set(names))
 
 
 def atoms():
@@ -171,8 +214,23 @@ def generate_tla(path):
     lines.append("UnsupportedPaths == %s" % tla_set(tla_str(p) for p in sorted(UNSUPPORTED)))
     lines.append("VarNames == %s" % tla_set(tla_str(v) for v in VAR_NAMES))
     lines.append("EnvNames == %s" % tla_set(tla_str(v) for v in ENV_NAMES))
-    lines.append("EnvLower(n) == CASE " + " [] ".join("n = %s -> %s" % (tla_str(k), tla_str(v)) for k, v in ENV_LOWER.items()))
     lines.append("EnvVarNames == %s" % tla_set(tla_str(v) for v in ENV_VAR_NAMES))
+    lines.append("(* the name alphabet of family \"names\" *)")
+    lines.append("EnvNamePool == %s" % tla_set(tla_str(v) for v in ENV_NAME_POOL))
+    lines.append("CompNamePool == %s" % tla_set(tla_str(v) for v in COMP_NAME_POOL))
+    lines.append("VarNamePool == %s" % tla_set(tla_str(v) for v in VAR_NAME_POOL))
+    lines.append("EnvVarNamePool == %s" % tla_set(tla_str(v) for v in ENV_VAR_NAME_POOL))
+    lines.append("OutNamePool == %s" % tla_set(tla_str(v) for v in OUT_NAME_POOL))
+    lines.append("ManyStages == %d" % MANY_STAGES)
+    names = all_env_names()
+    lines.append("(* environment names are case-insensitive (lower-case in FlowIR); the legacy section is ENV-<NAME IN UPPER CASE> *)")
+    lines.append("EnvLower(n) == CASE " + "\n    [] ".join("n = %s -> %s" % (tla_str(k), tla_str(env_lower(k))) for k in names))
+    lines.append("EnvSection(n) == CASE " + "\n    [] ".join("n = %s -> %s" % (tla_str(k), tla_str(env_section(k))) for k in names))
+    sections = sorted({env_section(k) for k in names})
+    lines.append("(* the reader: the name is what follows the 4 characters of the prefix *)")
+    lines.append("EnvNameOfSection(s) == CASE " + "\n    [] ".join("s = %s -> %s" % (tla_str(k), tla_str(k[4:].lower())) for k in sections))
+    lines.append("(* named fault: the name recovered by splitting at hyphens *)")
+    lines.append("EnvNameCutAtHyphen(s) == CASE " + "\n    [] ".join("s = %s -> %s" % (tla_str(k), tla_str(env_name_cut_at_hyphen(k))) for k in sections))
     lines.append("ReservedSections == %s" % tla_set(tla_str(v) for v in RESERVED_SECTION_NAMES))
     lines.append("=============================================================================")
     text = "\n".join(lines) + "\n"
